@@ -144,6 +144,14 @@ func GenDataset(t *rapid.T, maxPeople, maxPlaces int) *Dataset {
 					p.Tags[k] = genTagVal(t, l+"_tagv_"+k, k)
 				}
 			}
+			if chance(t, l+"_subtags", 50) {
+				p.SubTags = map[string]Val{}
+				for _, k := range []string{"k", "n"} {
+					if chance(t, l+"_subtag_"+k, 70) {
+						p.SubTags[k] = genTagVal(t, l+"_subtagv_"+k, k)
+					}
+				}
+			}
 		}
 		d.People = append(d.People, p)
 	}
@@ -180,7 +188,7 @@ type symSpec struct {
 
 var peopleScalars = []symSpec{{"id", "s"}, {"sa", "s"}, {"sb", "s"}, {"ia", "i"}, {"ib", "i"}, {"fa", "f"}, {"ba", "b"}, {"ta", "t"}, {"boss", "s"}, {"home", "s"}}
 var peopleDottedScalars = []symSpec{{"boss.sa", "s"}, {"boss.ia", "i"}, {"boss.fa", "f"}, {"boss.ba", "b"}, {"boss.ta", "t"}, {"home.name", "s"}, {"home.n", "i"}, {"boss.boss.sa", "s"}, {"boss.home.name", "s"}, {"boss.boss", "s"}}
-var peopleMapScalars = []symSpec{{"tags.k", "any"}, {"tags.n", "any"}, {"tags.s", "any"}, {"tags.missing", "any"}}
+var peopleMapScalars = []symSpec{{"tags.k", "any"}, {"tags.n", "any"}, {"tags.s", "any"}, {"tags.missing", "any"}, {"tags.sub.k", "any"}, {"tags.sub.n", "any"}}
 var peopleDottedMaps = []symSpec{{"boss.tags.k", "any"}}
 var peopleSetsDirect = []symSpec{{"roles", "s"}, {"nums", "s"}, {"places", "s"}, {"peers", "s"}}
 var peopleSetsDotted = []symSpec{{"places.name", "s"}, {"places.n", "i"}, {"places.businesses", "s"}, {"boss.roles", "s"}, {"boss.places", "s"}, {"boss.places.name", "s"}, {"places.people", "s"}, {"places.people.sa", "s"}, {"places.people.ia", "i"}, {"peers.sa", "s"}, {"peers.roles", "s"}}
